@@ -206,7 +206,7 @@ func vhIndexedCols(ncols int) []sql.IndexedColumn {
 }
 
 //verif:shards 16
-//verif:bounds CREATE TABLE statements of 1..2 columns (thorough: 1..3): type in {"",INTEGER,integer,TEXT}, column-level PRIMARY KEY (ASC/DESC), UNIQUE, COLLATE in {"",nocase,NOCASE}; 0..1 table constraint (thorough: 0..2) PRIMARY KEY/UNIQUE over 1..2 indexed columns with own DESC/COLLATE; WITHOUT ROWID yes/no; restricted to statements SQLite accepts (at most one primary key; WITHOUT ROWID has one)
+//verif:bounds CREATE TABLE statements of 1..2 columns (thorough: also 3 columns without table constraints): type in {"",INTEGER,integer,TEXT}, column-level PRIMARY KEY (ASC/DESC), UNIQUE, COLLATE in {"",nocase,NOCASE}; 0..1 table constraint PRIMARY KEY/UNIQUE over 1..2 indexed columns with own DESC/COLLATE; WITHOUT ROWID yes/no; restricted to statements SQLite accepts (at most one primary key; WITHOUT ROWID has one)
 func VH_C10_table() {
 	sh := verifShard(16)
 	ncols := 1 + sh%2 + verifTier()*verifChoice(2)
@@ -231,7 +231,10 @@ func VH_C10_table() {
 		c.Collate = vhColls[verifChoice(3)]
 		ct.Columns = append(ct.Columns, c)
 	}
-	ncons := verifChoice(2 + verifTier())
+	ncons := verifChoice(2)
+	if ncols == 3 {
+		ncons = 0 // thorough tier: three-column statements carry column constraints only
+	}
 	for k := 0; k < ncons; k++ {
 		if npk == 0 && vhFlag() {
 			npk++
